@@ -160,7 +160,7 @@ PENDING = {
 # what was added to each check after its description above was written (seed waves 4-10; DESIGN §11b)
 ADDED = {
     "C01": "CLI part: a dry run and a run whose submission the scheduler rejects between two `status` calls change nothing; non-sequence containers (dict views, UserDict, mappingproxy, re-iterables).",
-    "C02": "CLI sub-bound through the real `gwf run <selection>` incl. patterns matching nothing.",
+    "C02": "CLI sub-bound through the real `gwf run <selection>` incl. patterns matching nothing; the scheduler rejecting the k-th submission of a run (nothing downstream of the rejected target is submitted, prerequisites of what is submitted stay exact).",
     "C03": "9 spellings (incl. trailing slash), 9 container shapes (incl. UserDict, mappingproxy, pathlib and non-pathlib path objects), two file names differing only in Unicode normal form, absolute-but-unnormalised working dirs, a working directory reached through a symbolic link on disk, `gwf info NAME`; thorough: all 4-target assignments.",
     "C04": "Relative `..` spellings, reconvergent layered DAGs, real-file-system input kinds (file, directory, symlinks, dangling, symlink loop, a path below a regular file), stale logs of removed targets in the CLI family.",
     "C05": "Shortcut workflows (redundant edge whose far end sorts later), mixed-command histories, local backend through gwf's real Client, fresh-process tier.",
@@ -170,8 +170,8 @@ ADDED = {
     "C09": "Write faults (the k-th open-for-writing of the run fails with ENOSPC, incl. LSF script copies), crash point right after the rename that publishes a state file, a successful bsub whose answer is surrounded by lines of a site's submission filter, in-run duplicate check, accounting off, local backend (connection reset / reply lost at every request).",
     "C10": "Falsy option values, unopenable log paths as observations, bash executions with stdin=/dev/null.",
     "C11": "A dependent that starts after its dependency was cancelled while unfinished, a task depending on an id the pool never issued (number / string form of a live id), log-write failure of a dependency with non-zero exit, negative exit codes.",
-    "C12": "Capacity probe at every horizon (cores+1 fresh tasks: exactly `cores` run at once, all run), per-task log-write failures followed by more ready tasks than cores, SIGTERM-only processes count as live.",
-    "C13": "Process groups with a member that ignores SIGTERM (virtual and real tier), the pool's clock owned by the loop, background commands outliving the shell (real tier), output completeness (real tier).",
+    "C12": "CLI-level family (four targets asking for more cores than the pool has, run through the real Client on the bridged pool, every exit order, three rounds, bound on processes alive at once). Capacity probe at every horizon (cores+1 fresh tasks: exactly `cores` run at once, all run), per-task log-write failures followed by more ready tasks than cores, SIGTERM-only processes count as live.",
+    "C13": "Scheduler.shutdown() while tasks run / wait for a core / wait for a dependency; process creation failing with ValueError; process groups with a member that ignores SIGTERM (virtual and real tier), the pool's clock owned by the loop, background commands outliving the shell (real tier), output completeness (real tier).",
     "C14": "29 actions (enqueue and state query in one write, float ids, an unstartable task, a client that never reads its answers), task_state answers validated, final-state oracle for every accepted task, capacity probe; socket tier: flooding client that never reads, cases carry the pool's history.",
     "C15": "Commands started from a sub-directory / with -f (decoys of the same relative names), a declared output that is a directory with other files inside, a declared output that is a symlink to an unrelated file.",
     "C16": "Outputs in missing sub-directories, outputs that are symbolic links (to a stale / fresh / missing file), shortcut workflows; re-stamping only what the kernel really stamped and never times a program chose explicitly.",
